@@ -418,6 +418,33 @@ constsLoop:
 		}
 	}
 
+	// transitiveDeps returns the dependencies of the variable ident and the
+	// dependencies of the functions on which it depends, directly or
+	// indirectly: a variable initialized calling a function must be
+	// initialized after the variables used by the function.
+	transitiveDeps := func(ident *ast.Identifier) []*ast.Identifier {
+		var all []*ast.Identifier
+		visited := map[string]bool{}
+		var visit func(ds []*ast.Identifier)
+		visit = func(ds []*ast.Identifier) {
+			for _, dep := range ds {
+				if visited[dep.Name] {
+					continue
+				}
+				visited[dep.Name] = true
+				all = append(all, dep)
+				for _, f := range funcs {
+					if f.Ident.Name == dep.Name {
+						visit(deps[f.Ident])
+						break
+					}
+				}
+			}
+		}
+		visit(deps[ident])
+		return all
+	}
+
 	// Sorts variables.
 	sortedVars := []*ast.Var{}
 varsLoop:
@@ -425,7 +452,7 @@ varsLoop:
 		// Searches for next variable with resolved deps.
 		for i, v := range vars {
 			depsOk := true
-			for _, dep := range deps[v.Lhs[0]] {
+			for _, dep := range transitiveDeps(v.Lhs[0]) {
 				found := false
 			resolvedLoop:
 				for _, resolvedV := range sortedVars {
